@@ -13,7 +13,7 @@ from checks import decoders as D
 from spec import cosem_ref as CR, ref_p1
 
 PROP = "C15"
-ENGINE_EXC = (PathAbort, EngineLimit, EngineFault)
+ENGINE_EXC = (PathAbort, EngineLimit, EngineFault) + core.HARNESS_SIDE
 STEP_SECONDS = 12
 
 
